@@ -105,6 +105,71 @@ def rule_arith(ctx, fx, config):
             ctx.check(okk, "ARITH", "C06:ARITH:%s:result-from-tryfrom" % name, "returned value derives from try_from", "a returned value (line %s) does not derive from try_from" % ln, config, ctx.where(f, ln=ln))
 
 
+def rule_magnitude_from_digits(ctx, fx, config):
+    """ARITH: the value handed to the narrowing `try_from` of the two integer parsers is a magnitude accumulated from digits: its
+    deep definition reaches the checked accumulators (`parse_digits_u128`, `parse_decimal_*`) on every alternative, through
+    crate-local helpers if any — never a constant standing in for "no digits" (an empty digit string after a radix prefix is not
+    a number: `0o`, `0x`, `-0b`)."""
+    accs = {PS + "parse_digits_u128", PS + "parse_decimal_unsigned_u128", PS + "parse_decimal_signed_i128"}
+
+    def const_results(g, depth=0):
+        """constant Some(..)/Ok(..) values a helper between the parser and the accumulator can return"""
+        out = []
+        for b, i, adt, var, fl, ops, s_ in aggregates(g):
+            if s_["p"]["l"] == 0 and var in ("Some", "Ok") and ops:
+                with g.deep():
+                    v = g.sym_operand(s_["rv"]["ops"][0])
+                if v[0] == "const":
+                    out.append((g, b, render(v)))
+        return out
+    n = 0
+    for name in (PS + "parse_int_signed", PS + "parse_int_unsigned"):
+        f = fx.fn(name)
+        for b, t in f.calls():
+            g = fx.local_callee(t)
+            c = fx.callee(t)
+            if g is None or c in accs or not c.startswith(PS):
+                continue
+            # a helper of the integer parser that (transitively, one level) calls an accumulator
+            if any(fx.callee(t2) in accs for b2, t2 in g.calls()):
+                n += 1
+                bad = const_results(g)
+                ctx.check(not bad, "ARITH", "C06:ARITH:magnitude-from-digits:%s" % g.name, "%s returns what the accumulator computed" % g.name,
+                          "%s, which sits between the integer parser and the digit accumulator, can return the constant %s without any digit having been read: a bare radix prefix (`0o`) is accepted as a number" % (g.npath, [x[2] for x in bad]), config, ctx.where(g, bad[0][1]) if bad else ctx.where(g))
+        # in the parser itself: the argument of every try_from derives from an accumulator (or a helper that was just judged)
+        for b, t in f.calls():
+            if t["f"].get("name") == "try_from" and "TryFrom" in str(t["f"].get("trait")):
+                with f.deep():
+                    a = f.sym_operand(t["args"][0])
+                n += 1
+                okd = sym_contains(a, lambda x: x[0] == "call" and (x[1] in accs or (x[1].startswith(PS) and fx.fn_opt(x[1]) is not None and any(fx.callee(t2) in accs for b2, t2 in fx.fn_opt(x[1]).calls()))))
+                ctx.check(okd, "ARITH", "C06:ARITH:magnitude-from-digits:%s:try_from" % f.name, "the narrowed value derives from a digit accumulator", "%s narrows `%s`, which does not come out of a digit accumulator" % (f.name, render(a)[:80]), config, ctx.where(f, b))
+    ctx.floor("ARITH.magnitude-sites", n, 4, config)
+
+
+def rule_float_core_parse_guard(ctx, fx, config):
+    """TABLE: ordinary float literals are read by core's `str::parse`, which also understands the words `inf`, `infinity` and
+    `nan` in any letter case — plain strings in YAML.  The call is reached only on the "contains a digit" edge of a test over the
+    text's bytes (the YAML spellings `.inf` / `.nan` are matched before it)."""
+    f = fx.fn(PS + "parse_yaml12_float")
+    ctx.saw(f)
+    parses = [b for b, t in f.calls() if last_seg(fx.callee_decl(t) or fx.callee(t)) in ("parse", "from_str") and "str" in (fx.callee_decl(t) or fx.callee(t))]
+    guards = []
+    for sb, sym, tt, ff in bool_switches(f):
+        d = sym
+        neg = False
+        while d[0] == "un" and d[1] == "Not":
+            d, neg = d[2], not neg
+        if d[0] == "call" and last_seg(d[1]) == "any":
+            # the closure asks for an ASCII digit
+            clos = [g for g in fx.closures_of(f) if any(last_seg(fx.callee(ct)) == "is_ascii_digit" for cb, ct in g.calls())]
+            if clos:
+                guards.append((sb, ff if neg else tt))
+    ctx.check(bool(parses) and bool(guards) and all(any(f.edge_dominates(sb, e, pb) for sb, e in guards) for pb in parses), "TABLE", "C06:TABLE:float-core-parse-needs-digit",
+              "core's float parser is consulted only for texts that contain a digit (%d call(s))" % len(parses),
+              "parse_yaml12_float hands texts without any digit to core's float parser, which reads `inf` / `infinity` / `nan` (any case) as floats: `v: nan` is NaN instead of the string", config, ctx.where(f))
+
+
 def rule_typed_table(ctx, fx, config):
     rows = [("i%d" % n, PS + "parse_int_signed") for n in (8, 16, 32, 64, 128)] + [("u%d" % n, PS + "parse_int_unsigned") for n in (8, 16, 32, 64, 128)] + \
            [("f32", PS + "parse_yaml12_float"), ("f64", PS + "parse_yaml12_float")]
@@ -582,6 +647,8 @@ def run(ctx):
     for config in ctx.configs:
         fx = ctx.facts(config)
         rule_arith(ctx, fx, config)
+        rule_magnitude_from_digits(ctx, fx, config)
+        rule_float_core_parse_guard(ctx, fx, config)
         rule_typed_table(ctx, fx, config)
         rule_literal_tables(ctx, fx, config)
         rule_style(ctx, fx, config)
